@@ -54,6 +54,8 @@ deriving Repr, DecidableEq
 structure St where
   /-- `app._is_running` -/
   appOn : Bool := false
+  /-- `app.is_done` while `_is_running` is still True (exit requested, `run_async` not yet resumed) -/
+  exiting : Bool := false
   /-- `app._running_in_terminal` -/
   rit : Bool := false
   /-- the chain: every section that registered in `_running_in_terminal_f`, oldest first -/
@@ -76,6 +78,8 @@ inductive Op where
   | start
   /-- `Application.invalidate()` + the `_redraw()` it schedules -/
   | inval
+  /-- `Application.exit()` sets the future's result; `run_async` resumes at `stop` -/
+  | exitReq
 deriving Repr, DecidableEq
 
 /-- the future stored in `app._running_in_terminal_f` is missing or done -/
@@ -145,11 +149,12 @@ def step (s : St) : Op → St
   | .stop =>
     if s.appOn then
       -- `_redraw(render_as_done=True)` draws only `if self._is_running and not self._running_in_terminal`
-      { s with appOn := false, log := s.log ++ (if s.rit then [] else [.doneDraw]) }
+      { s with appOn := false, exiting := false, log := s.log ++ (if s.rit then [] else [.doneDraw]) }
     else s
   | .start =>
     -- the previous `run_async` has returned: it awaited the last future of the chain
     if ¬ s.appOn ∧ allDone s.chain then { s with appOn := true, log := s.log ++ [.draw] } else s
+  | .exitReq => if s.appOn then { s with exiting := true } else s
   | .inval =>
     -- `_redraw`: "Only draw when no sub application was started": `_is_running and not _running_in_terminal`
     if s.appOn ∧ ¬ s.rit then { s with log := s.log ++ [.draw] } else s
@@ -187,7 +192,7 @@ def encStatus : Status → String
 
 def reply (old new : St) : String :=
   let evs := new.log.drop old.log.length
-  " ".intercalate (evs.map encEv) ++ s!" | app={if new.appOn then 1 else 0} rit={if new.rit then 1 else 0} chain={"".intercalate (new.chain.map fun x => encStatus x.st)}"
+  " ".intercalate (evs.map encEv) ++ s!" | app={if new.appOn then 1 else 0} exit={if new.exiting then 1 else 0} rit={if new.rit then 1 else 0} chain={"".intercalate (new.chain.map fun x => encStatus x.st)}"
 
 def stepLine (s : St) : List String → Option (St × String)
   | ["cinit"] => let n : St := {}; some (n, reply n n)
@@ -203,6 +208,7 @@ def stepLine (s : St) : List String → Option (St × String)
   | ["cstop"] => let s' := step s .stop; some (s', reply s s')
   | ["cstart"] => let s' := step s .start; some (s', reply s s')
   | ["cinval"] => let s' := step s .inval; some (s', reply s s')
+  | ["cexit"] => let s' := step s .exitReq; some (s', reply s s')
   | _ => none
 
 end Ptk.C20Chain
